@@ -139,14 +139,14 @@ def run_e2e(ck, binp, stats):
     rc, out = ck.run([binp, "e2e", server, tmpl, wd, str(n)], timeout=1500)
     cases = [json.loads(l) for l in out.splitlines() if l.startswith('{"e2e"')]
     done = re.search(r'\{"e2e_done":(\d+)\}', out)
-    if rc != 0 or not done or int(done.group(1)) != len(cases) or len(cases) != n:
+    if rc != 0 or not done or int(done.group(1)) != len(cases) or len(cases) < n:
         ck.broken.append("harness c06 e2e failed rc=%d cases=%d: %s" % (rc, len(cases), out[-600:]))
         return cases
     reported = 0
     for c in cases:
         for o in c["oracle"]:
             fid = o["id"]
-            replay = {"kind": "direct-oracle-e2e", "class": c["class"], "sub": c.get("sub"), "precision": c["prec"], "text": c["text"],
+            replay = {"kind": "direct-oracle-e2e", "class": c["class"], "sub": c.get("sub"), "precision": c.get("prec", ""), "text": c["text"],
                       "in": c["text"].encode("utf-8", "surrogateescape").hex(), "http_status": c["status"], "query_answer": c["got"], "oracle": c["oracle"]}
             if fid != "none" and ck.match_finding(fid):
                 stats["by_finding"][fid] += 1
@@ -187,6 +187,12 @@ def main(ck):
     if rc != 0 or not done or int(done.group(1)) != len(cases) or len(cases) < n:
         ck.broken.append("harness c06 failed rc=%d cases=%d: %s" % (rc, len(cases), out[-600:]))
         return
+    sweep = re.search(r'\{"stream_sweep":(\d+),"failed":(\d+)\}', out)
+    if not sweep:
+        ck.broken.append("harness c06: block-reader boundary sweep did not report")
+    else:
+        ck.cov["block_reader_sweep_bodies"] = int(sweep.group(1))
+        ck.cov["block_reader_sweep_failed"] = int(sweep.group(2))
     codes = eval_model(ck, cases) if ok else None
     stats = {"by_finding": collections.Counter(), "first": {}, "unlisted_failures": 0}
     if codes is not None:
@@ -203,7 +209,7 @@ def main(ck):
     # coverage
     hist = collections.Counter((c["class"] + ("/" + c["sub"] if c.get("sub") and c["class"] != "corpus" else "")) for c in cases)
     nontriv = set(c["in"] for c in cases if c["nontrivial"])
-    ck.cov["evaluations"] = len(cases) + len(e2e)
+    ck.cov["evaluations"] = len(cases) + len(e2e) + ck.cov.get("block_reader_sweep_bodies", 0)
     ck.cov["e2e_requests"] = len(e2e)
     ck.cov["e2e_histogram"] = dict(collections.Counter("%s/%s/%s" % (c["class"], c.get("sub", ""), c["status"]) for c in e2e))
     ck.cov["distinct_nontrivial"] = len(nontriv)
